@@ -104,6 +104,12 @@ pub fn run(tier: Tier) -> i32 {
                 let fl = (if g.blocks[bi].with_csize { 0x40 } else { 0 }) | (if g.blocks[bi].with_usize { 0x80 } else { 0 });
                 g.blocks[bi].o_flags = Some(fl | (1 << bit));
                 items.push((format!("[{}] block {} reserved flag bit {} set", bn, bi, bit), xz::build(&g).0, false, 0));
+                // ... in block headers of every size class (12 .. 1024 bytes: legal null padding)
+                for pad4 in [1usize, 13, 14, 15, 16, 17, 60, 252] {
+                    let mut h = g.clone();
+                    h.blocks[bi].extra_pad4 = pad4;
+                    items.push((format!("[{}] block {} reserved flag bit {} set, block header {} bytes longer than needed", bn, bi, bit, pad4 * 4), xz::build(&h).0, false, 0));
+                }
             }
         }
         // filters
